@@ -36,10 +36,10 @@ RULE = ("setter/connect/update sequences (all orders, lengths 1..8); idle+cut se
 ASSUMPTIONS = ["time values are multiples of 1/1024 s (exact in binary floating point), so every float comparison in the code "
                "has the truth value of the model's integer comparison",
                "real clocks / thread scheduling are not modelled: update() calls are the harness's ticks",
-               "two-endpoint theorems: the network shows every datagram to the peer within d of its emission (copies only within d; "
-               "anything else offered does not open under the session key; no bytes with an unparsable header), both sides call "
-               "update() at least every tau, fewer than half the sequence ring in flight (d <= 32766 * (max(K, si) + 1)), and the pair "
-               "starts established with nothing in flight"]
+               "two-endpoint theorems: the network shows every datagram to the peer within d of its emission (further copies only "
+               "within `life`; anything else offered does not open under the session key; no bytes with an unparsable header), both "
+               "sides call update() at least every tau, fewer than half the sequence ring alive (life <= 32766 * (max(K, si) + 1)), "
+               "and the pair starts established with nothing in flight"]
 TRUSTED = ["harness/connsim.py + netsim.py virtual clock (mpgameserver.connection.time replaced by a shim)",
            "harness/idlesim.py applies the server loop's sweep to one connection itself (DISCONNECTING -> disconnect(); removed when "
            "DISCONNECTED or ConnectionBase.timedout(connection_timeout); update() either way) instead of running UdpServerThread; "
@@ -289,13 +289,13 @@ def connect_timeout_case(run, rng, tt, with_cb, tau):
 
 # ---------------------------------------------------------------- the two endpoints together
 
-def idle_pair_compare(run, p, tau, d, label, cases, impl, margs):
-    ok_params = idlesim.params_ok(p.KC, p.KS, tau, d, p.Tconn)
-    adm, why = p.admissible(tau, d)
-    cases.append({"session": label, "KC": p.KC, "KS": p.KS, "tau": tau, "d": d, "T": p.Tconn, "events": len(p.events),
+def idle_pair_compare(run, p, tau, d, life, label, cases, impl, margs):
+    ok_params = idlesim.params_ok(p.KC, p.KS, tau, d, p.Tconn, life)
+    adm, why = p.admissible(tau, d, life)
+    cases.append({"session": label, "KC": p.KC, "KS": p.KS, "tau": tau, "d": d, "life": life, "T": p.Tconn, "events": len(p.events),
                   "admissible": adm, "why": why})
     impl.append([1, 1 if ok_params else 0, 1 if adm else 0, p.obs])
-    margs.append(p.model_args(tau, d))
+    margs.append(p.model_args(tau, d, life))
     return ok_params, adm
 
 
@@ -327,13 +327,14 @@ def check_idle_pairs(run, rng, th):
                 M = max(KC, KS, idlesim.SI)
                 grid.append((KC, KS, tau, d, M + tau + d + 15))            # the tightest T on the 15-tick grid
                 grid.append((KC, KS, tau, d, 5 * T))
-    grid = [g for g in grid if idlesim.params_ok(*g)]
+    grid = [g for g in grid if idlesim.params_ok(*g, life=g[3] + 3 * T)]
     grid = grid * 4 if th else rng.sample(grid, 6)
     for n, (KC, KS, tau, d, Tc) in enumerate(grid):
+        life = d + (0 if n % 2 else 3 * T)          # copies also long after the first one
         p = idlesim.random_session(run, rng, KC, KS, tau, d, Tc, 700 if th else 160, regular=(n % 3 == 0),
-                                   loss=(0.1 if n % 7 == 6 else 0.0))
+                                   loss=(0.1 if n % 7 == 6 else 0.0), life=life, dup=0.3)
         try:
-            okp, adm = idle_pair_compare(run, p, tau, d, "pair%d" % n, cases, impl, margs)
+            okp, adm = idle_pair_compare(run, p, tau, d, life, "pair%d" % n, cases, impl, margs)
             if okp and adm:
                 idle_pair_oracle(run, p, tau, d, "pair%d" % n)
                 run.nt(("idle_pair", KC, KS, tau, d, Tc))
@@ -374,7 +375,7 @@ def check_idle_pairs(run, rng, th):
     for label, KC, KS, Tc, script, expect, inside in wit:
         p = idlesim.scripted_session(run, rng, KC, KS, Tc, script)
         try:
-            okp, adm = idle_pair_compare(run, p, 1800, 0, label, cases, impl, margs)
+            okp, adm = idle_pair_compare(run, p, 1800, 0, 0, label, cases, impl, margs)
             final = p.statuses[-1]
             if not adm:
                 run.oracle_violation("witness-schedule-not-admissible", {"session": label}, "harness/idlesim.py")
